@@ -47,6 +47,7 @@ def run(ctx):
     if not ctx.quick:
         cases += [{"kind": "c15", "inst": inst, "L": L, "P": dict(je.DEFAULT_P), "shape": "small-scope"} for inst, L in je.small_scope()]
         ctx.notes["exhaustive_small_scope"] = "all instances with <= 2 jobs x <= 2 operations on 2 machines, durations <= 2, slack 0..2 (468 cases), all bitstrings up to 10 qubits"
+    cases += [dict(je.gen_huge_limit_case(ctx.rng, share=0, kind=k), kind="c15") for k in ["long", "unit"] * ctx.n(1, 10)]
     for c in cases:
         summ = je.examiner(c)(ctx, batch, c, {"C15"}, ctx.rng)
         n = summ["n"]
